@@ -530,4 +530,160 @@ example : intervalsOverlap 1 3 2 4 (some 1) (some 1) = none := by decide +kernel
 example : isInClip ⟨1, 0, 2, 5⟩ 0 5 0 = some true := by decide +kernel
 example : isInClip ⟨0, 0, 1, 5⟩ 1 5 0 = some false := by decide +kernel
 
+/-! ## follow-up: construction paths — how the arguments of a call reach the parameters -/
+
+/-- the parameter tables have no repeated names -/
+theorem C12_params_nodup : overlapParams.Nodup ∧ clipParams.Nodup := by decide
+
+/-- a purely positional call: the i-th optional parameter receives the i-th positional value,
+    the parameters beyond the values given receive nothing (their default) -/
+theorem C12_bind_positional {α} (params : List String) (pos : List α) (h : pos.length ≤ params.length) :
+    bindCall params pos [] = some ((List.range params.length).map (fun i => pos[i]?)) := by
+  have key : ∀ (ps : List String) (k : Nat),
+      bindFrom pos ([] : List (String × α)) ps k = some ((List.range ps.length).map (fun i => pos[k + i]?)) := by
+    intro ps
+    induction ps with
+    | nil => intro k; simp [bindFrom]
+    | cons p ps ih =>
+      intro k
+      have hl : kwLookup ([] : List (String × α)) p = none := by simp [kwLookup]
+      simp only [bindFrom, hl, ih (k + 1), List.length_cons, List.range_succ_eq_map, List.map_cons, List.map_map]
+      cases hk : pos[k]? <;> simp [Function.comp_def, Nat.add_assoc, Nat.add_comm 1]
+  unfold bindCall
+  have h1 : ¬ pos.length > params.length := by omega
+  simp [h1, key]
+
+/-- the order in which keywords are written is irrelevant -/
+theorem C12_bind_keyword_order {α} (params : List String) (pos : List α) (kw kw' : List (String × α))
+    (h : kw.Perm kw') : bindCall params pos kw = bindCall params pos kw' := by
+  have hl : ∀ name, kwLookup kw name = kwLookup kw' name := by
+    intro name
+    have hp := h.filter (fun p => p.1 == name)
+    unfold kwLookup
+    generalize kw.filter (fun p => p.1 == name) = l at hp
+    generalize kw'.filter (fun p => p.1 == name) = l' at hp
+    match l, l', hp with
+    | [], l', hp => rw [List.nil_perm.mp hp]
+    | [p], l', hp => rw [List.singleton_perm.mp hp]
+    | p :: q :: t, [], hp => exact absurd hp.length_eq (by simp)
+    | p :: q :: t, [x], hp => exact absurd hp.length_eq (by simp)
+    | p :: q :: t, x :: y :: t', hp => rfl
+  have hf : ∀ (ps : List String) (k : Nat), bindFrom pos kw ps k = bindFrom pos kw' ps k := by
+    intro ps
+    induction ps with
+    | nil => intro k; rfl
+    | cons p ps ih => intro k; simp only [bindFrom, hl p, ih (k + 1)]
+  have ha : kw.any (fun p => !params.contains p.1) = kw'.any (fun p => !params.contains p.1) := by
+    rw [Bool.eq_iff_iff]
+    simp only [List.any_eq_true]
+    constructor
+    · rintro ⟨x, hx, hp⟩; exact ⟨x, h.mem_iff.mp hx, hp⟩
+    · rintro ⟨x, hx, hp⟩; exact ⟨x, h.mem_iff.mpr hx, hp⟩
+  unfold bindCall
+  rw [ha, hf]
+
+/-- every legitimate way of passing the two thresholds reaches `intervals_overlap`'s body with the same
+    values: both by position, the first by position and the second by keyword, both by keyword in either
+    order, one alone, none; "not given" and "given as `None`" coincide (third line from the end); and the
+    calls Python itself rejects (three positional values, a parameter by position and by keyword, an
+    unknown keyword) are `TypeError`s, not answers -/
+theorem C12_call_forms (s1 e1 s2 e2 : Rat) (a r : Option Rat) :
+    intervalsOverlapCall s1 e1 s2 e2 [a, r] [] = some (intervalsOverlap s1 e1 s2 e2 a r) ∧
+    intervalsOverlapCall s1 e1 s2 e2 [a] [("min_relative_overlap", r)] = some (intervalsOverlap s1 e1 s2 e2 a r) ∧
+    intervalsOverlapCall s1 e1 s2 e2 [] [("min_absolute_overlap", a), ("min_relative_overlap", r)]
+      = some (intervalsOverlap s1 e1 s2 e2 a r) ∧
+    intervalsOverlapCall s1 e1 s2 e2 [] [("min_relative_overlap", r), ("min_absolute_overlap", a)]
+      = some (intervalsOverlap s1 e1 s2 e2 a r) ∧
+    intervalsOverlapCall s1 e1 s2 e2 [a] [] = some (intervalsOverlap s1 e1 s2 e2 a none) ∧
+    intervalsOverlapCall s1 e1 s2 e2 [] [("min_relative_overlap", r)] = some (intervalsOverlap s1 e1 s2 e2 none r) ∧
+    intervalsOverlapCall s1 e1 s2 e2 [] [("min_absolute_overlap", a)] = some (intervalsOverlap s1 e1 s2 e2 a none) ∧
+    intervalsOverlapCall s1 e1 s2 e2 [] [] = some (intervalsOverlap s1 e1 s2 e2 none none) ∧
+    intervalsOverlapCall s1 e1 s2 e2 [a, r, a] [] = none ∧
+    intervalsOverlapCall s1 e1 s2 e2 [a] [("min_absolute_overlap", a)] = none ∧
+    intervalsOverlapCall s1 e1 s2 e2 [] [("minimum_overlap", a)] = none := by
+  simp [intervalsOverlapCall, bindCall, bindFrom, kwLookup, overlapParams]
+
+/-- the geometry predicates bind their thresholds exactly as `intervals_overlap` does, and
+    `is_in_clip` its minimum (by position, by keyword, or not at all = the default) -/
+theorem C12_call_forms_geometry (g g1 g2 : Geom) (a r : Option Rat) (cs ce m : Rat) :
+    haveTemporalOverlapCall g1 g2 [a, r] [] = some (haveTemporalOverlap g1 g2 a r) ∧
+    haveTemporalOverlapCall g1 g2 [a] [("min_relative_overlap", r)] = some (haveTemporalOverlap g1 g2 a r) ∧
+    haveTemporalOverlapCall g1 g2 [] [("min_relative_overlap", r), ("min_absolute_overlap", a)]
+      = some (haveTemporalOverlap g1 g2 a r) ∧
+    haveFrequencyOverlapCall g1 g2 [a, r] [] = some (haveFrequencyOverlap g1 g2 a r) ∧
+    haveFrequencyOverlapCall g1 g2 [a] [("min_relative_overlap", r)] = some (haveFrequencyOverlap g1 g2 a r) ∧
+    haveFrequencyOverlapCall g1 g2 [] [("min_relative_overlap", r), ("min_absolute_overlap", a)]
+      = some (haveFrequencyOverlap g1 g2 a r) ∧
+    isInClipCall g cs ce [m] [] = some (isInClipGeom g cs ce m) ∧
+    isInClipCall g cs ce [] [("minimum_overlap", m)] = some (isInClipGeom g cs ce m) ∧
+    isInClipCall g cs ce [] [] = some (isInClipGeom g cs ce defaultMinimumOverlap) ∧
+    isInClipCall g cs ce [m, m] [] = none := by
+  simp [haveTemporalOverlapCall, haveFrequencyOverlapCall, isInClipCall, bindCall, bindFrom, kwLookup,
+    overlapParams, clipParams]
+
+/-! ## follow-up: histories — consecutive calls in one process -/
+
+/-- after a history a slot carries what was last written to it (whatever was called or used in between) -/
+theorem C12_session_last_write (σ : Store) (steps : List Step) (k : Nat) :
+    (exec σ steps).geoms k = lastGeom k steps (σ.geoms k) ∧
+    (exec σ steps).clips k = lastClip k steps (σ.clips k) := by
+  induction steps generalizing σ with
+  | nil => exact ⟨rfl, rfl⟩
+  | cons s rest ih =>
+    cases s <;> simp only [exec, lastGeom, lastClip, ih, Store.write, eq_comm (a := k)] <;> trivial
+
+/-- every call of a history answers as the base function on the content the slots carry at that moment -/
+theorem C12_session_answer (σ : Store) (pre : List Step) (q : Step) (post : List Step) :
+    (runSession σ (pre ++ q :: post))[pre.length]? = some ((exec σ pre).answer q) := by
+  induction pre generalizing σ with
+  | nil => simp [runSession, exec]
+  | cons s rest ih => simp [runSession, exec, ih]
+
+/-- calls and uses leave no trace: the store after a history is the store after its writes alone, so
+    no answer depends on what was asked (or merely computed) before -/
+theorem C12_session_reads_transparent (σ : Store) (steps : List Step) :
+    exec σ steps = exec σ (steps.filter Step.isWrite) := by
+  induction steps generalizing σ with
+  | nil => rfl
+  | cons s rest ih =>
+    cases s <;> simp only [List.filter, Step.isWrite, exec, ih] <;> rfl
+
+/-- an object that was used, changed and used again answers like a freshly constructed one with the
+    same content: after any history, a call on slots whose last written contents are `g1`, `g2`
+    (clip `(cs, ce)`) is the base predicate on `g1`, `g2` -/
+theorem C12_session_fresh (σ : Store) (pre : List Step) (i j c : Nat) (g1 g2 : Geom) (cs ce : Rat)
+    (a r m : Option Rat)
+    (h1 : lastGeom i pre (σ.geoms i) = some g1) (h2 : lastGeom j pre (σ.geoms j) = some g2)
+    (h3 : lastClip c pre (σ.clips c) = some (cs, ce)) :
+    (exec σ pre).answer (.temporal i j a r) = haveTemporalOverlap g1 g2 a r ∧
+    (exec σ pre).answer (.frequency i j a r) = haveFrequencyOverlap g1 g2 a r ∧
+    (exec σ pre).answer (.inClip i c m) = isInClipGeom g1 cs ce (m.getD defaultMinimumOverlap) ∧
+    (exec σ pre).answer (.temporal i j a r)
+      = (exec Store.empty [.setGeom i g1, .setGeom j g2]).answer (.temporal i j a r) := by
+  have e1 := (C12_session_last_write σ pre i).1
+  have e2 := (C12_session_last_write σ pre j).1
+  have e3 := (C12_session_last_write σ pre c).2
+  rw [h1] at e1; rw [h2] at e2; rw [h3] at e3
+  refine ⟨?_, ?_, ?_, ?_⟩
+  · simp [Store.answer, e1, e2]
+  · simp [Store.answer, e1, e2]
+  · simp [Store.answer, e1, e3]
+  · by_cases hij : i = j
+    · subst hij
+      have : g1 = g2 := by rw [h1] at h2; exact Option.some.inj h2
+      subst this
+      simp [Store.answer, e1, exec, Store.write, Store.empty]
+    · simp [Store.answer, e1, e2, exec, Store.write, Store.empty, hij]
+
+-- non-vacuity: the history of seeded C12-7 (use, move by model_copy / assignment, use again)
+example : runSession Store.empty
+    [.setGeom 0 (.boundingBox 1 1200 2 1800), .setGeom 1 (.boundingBox (3/2) 1000 (5/2) 2000), .setClip 0 0 5,
+     .temporal 0 1 none none, .inClip 0 0 none, .touch 0,
+     .setGeom 0 (.boundingBox 7 3000 8 4000),
+     .temporal 0 1 none none, .frequency 1 0 none none, .inClip 0 0 none]
+    = [none, none, none, some (some true), some (some true), none, none,
+       some (some false), some (some false), some (some false)] := by decide +kernel
+example : bindCall overlapParams [some (1 : Rat)] [("min_relative_overlap", none)] = some [some (some 1), some none] := by
+  decide +kernel
+
 end SE.Proofs.C12
